@@ -59,7 +59,7 @@ def one_call(b, *names):
     return c[0] if len(c) == 1 else None
 
 
-def run(rep, tier="quick", replay=None, evidence_dir=None):
+def run(rep, tier="quick", replay=None, evidence_dir=None, collect_only=False):
     prog = Program(factsmod.extract())
     rep.rule("C11.R1", "every acceptance path passes its well-formedness check (gates by dominance; who-may-construct)")
     rep.rule("C11.R2", "full names are unique: no unchecked insert into the definition table (C20.R3 instances)")
@@ -402,6 +402,8 @@ def run(rep, tier="quick", replay=None, evidence_dir=None):
                ("%d sites of kind %s, table allows %d; functions above their recorded count: %s" % (len(sites), kind, allowed, "; ".join(over))) if not ok else "%d sites <= %d allowed" % (len(sites), allowed),
                over[0].split(" at ")[-1] if over else "")
 
+    if collect_only:
+        return rep
     rep.floor("C11", "obligations", len(rep.obligations), 45)
     rep.not_decided = ["that exactly the well-formed schemas are accepted (regex content, JSON number ranges, defaults of every JSON kind)",
                        "termination / stack depth on adversarial nesting (serde_json's recursion limit is trusted)",
